@@ -51,7 +51,7 @@ class C16(Prop):
 
     def gen(self, rng, tier):
         op = rng.choice(['sample', 'sample', 'sampleByKey', 'sampleRepl', 'sampleByKeyRepl', 'takeSample', 'takeSample',
-                         'takeSampleRepl', 'randomSplit', 'randomSplit'])
+                         'takeSampleRepl', 'randomSplit', 'randomSplit', 'randomSplitNoSeed'])
         seed = rng.choice([rng.randint(0, 49), rng.randint(0, 49), rng.getrandbits(31)])
         if op in ('sampleByKey', 'sampleByKeyRepl'):
             xs = [(rng.choice([0, 1, 2, 'a', None]), rng.randint(0, 5)) for _ in range(rng.choice([0, 2, 5, 9, 14]))]
@@ -82,6 +82,8 @@ class C16(Prop):
                 out.append({'op': 'sample', 'seed': seed, 'parts': data, 'f': f})
             out.append({'op': 'randomSplit', 'seed': seed, 'parts': data, 'weights': [1, 2, 1]})
             out.append({'op': 'takeSample', 'seed': seed, 'parts': data, 'num': seed % 12})
+        for i in range(12):
+            out.append({'op': 'randomSplitNoSeed', 'seed': i, 'parts': [list(range(12)), [], list(range(12, 20))], 'weights': [1, 2, 1][:2 + i % 2]})
         return out
 
     def nontrivial(self, case):
@@ -115,6 +117,24 @@ class C16(Prop):
             first = r.glom().collect()
             reeval.append((r.count(), sum(len(p) for p in first), r.glom().collect(), first))
             return first
+        if op == 'randomSplitNoSeed':
+            # no seed given: nothing to replay, but the splits must still partition the data (every element in exactly one
+            # split, order kept) - whatever generator(s) the implementation draws from
+            try:
+                splits = [r.collect() for r in build_layout(sc, layout).randomSplit(case['weights'])]
+            except Exception as e:  # pylint: disable=broad-except
+                return Mismatch('randomSplit raised', exc(e), None, 'C16:randomSplit:exc')
+            impl = F.to_json(splits)
+            if multiset([x for sp in impl for x in sp]) != multiset([x for p in case['parts'] for x in p]):
+                return Mismatch('randomSplit (unseeded) does not assign every element to exactly one split', impl, case['parts'],
+                                'C16:randomSplit:partition', relation='spec')
+            want = [canon(x) for p in case['parts'] for x in p]
+            for sp in impl:
+                it = iter(want)
+                if not all(any(canon(x) == y for y in it) for x in sp):
+                    return Mismatch('randomSplit (unseeded): a split does not keep the input order', impl, case['parts'],
+                                    'C16:randomSplit:order', relation='spec')
+            return None
         try:
             rdd = build_layout(sc, layout)
             if op == 'sample':
